@@ -1,6 +1,7 @@
 package eng
 
 import (
+	"fmt"
 	"go/constant"
 	"go/token"
 	"go/types"
@@ -349,9 +350,73 @@ func (ev *byteEval) value(v ssa.Value, ctx phiCtx, depth int) (int64, bool) {
 			}
 			args[callee.Params[i]] = av
 		}
-		return ev.call(callee, args, depth+1)
+		if r, ok := ev.call(callee, args, depth+1); ok {
+			return r, true
+		}
+		return concreteCall(callee, args)
 	}
 	return 0, false
+}
+
+var (
+	concreteMemo = map[string][2]int64{}
+	concreteMu   sync.Mutex
+)
+
+// concreteCall answers a classification function the path follower cannot (it reads a table a package initialiser
+// builds, or loops) by running it in the SSA evaluator on the known integer arguments.
+func concreteCall(fn *ssa.Function, args map[ssa.Value]int64) (int64, bool) {
+	res := fn.Signature.Results()
+	if res.Len() != 1 {
+		return 0, false
+	}
+	if b, ok := res.At(0).Type().Underlying().(*types.Basic); !ok || b.Info()&(types.IsInteger|types.IsBoolean) == 0 {
+		return 0, false
+	}
+	key := fn.String()
+	var in []any
+	for _, p := range fn.Params {
+		b, ok := p.Type().Underlying().(*types.Basic)
+		if !ok || b.Info()&(types.IsInteger|types.IsBoolean) == 0 {
+			return 0, false
+		}
+		v := args[p]
+		key += fmt.Sprintf(",%d", v)
+		if b.Info()&types.IsBoolean != 0 {
+			in = append(in, v != 0)
+		} else {
+			in = append(in, v)
+		}
+	}
+	concreteMu.Lock()
+	m, hit := concreteMemo[key]
+	concreteMu.Unlock()
+	if hit {
+		return m[0], m[1] != 0
+	}
+	e := NewEvaluator()
+	e.Steps = 20000
+	got, err := e.Call(fn, in, 0)
+	out, okOut := int64(0), false
+	if err == nil {
+		switch g := got.(type) {
+		case int64:
+			out, okOut = g, true
+		case bool:
+			if g {
+				out = 1
+			}
+			okOut = true
+		}
+	}
+	fl := int64(0)
+	if okOut {
+		fl = 1
+	}
+	concreteMu.Lock()
+	concreteMemo[key] = [2]int64{out, fl}
+	concreteMu.Unlock()
+	return out, okOut
 }
 
 // call evaluates a pure classification function on known integer arguments by
